@@ -23,6 +23,7 @@ EXPLANATION = (
     "detaches the position. Decides containment and exactness symbolically for all extents and histories; not "
     "floating-point rounding inside the bounds.")
 EXPLANATION += (' wrap_env is forwarded unchanged by every world subclass constructor and stored as given; clamps written as statements or conditional expressions have the min/max normal form; a removal path that found no PositionComponent on the leaving agent has nothing to detach.')
+EXPLANATION += (' Coordinates and offsets are never passed to a function that converts to a C double (math.* except floor / ceil / trunc, float()).')
 ASSUMPTIONS = ["extents are 0 or >= 1 and finite; grid coordinates are integers (quantifier)",
                "Python's % with positive modulus lies in [0, modulus) for ints and [0, modulus] for floats",
                "user code does not write position fields directly"]
